@@ -197,6 +197,8 @@ impl<T: Qcow2IoOps> Qcow2Dev<T> {
                 }
             };
 
+            #[cfg(qcow2_rs_verif)]
+            crate::verif::probe("free:wait-rb-write");
             let mut refblock = rb_handle.value().write().await;
             let end = cls.rb_slice_host_end(info);
 
@@ -257,6 +259,8 @@ impl<T: Qcow2IoOps> Qcow2Dev<T> {
         // hold write lock, so anyone can't get this entry
         // and the whole cache lock isn't required, so lock wait is just on
         // this entry
+        #[cfg(qcow2_rs_verif)]
+        crate::verif::probe("add_cache_slice:wait-entry-write");
         let mut slice = entry.value().write().await;
 
         // if rb becomes update, it has been committed in read map already
@@ -273,6 +277,8 @@ impl<T: Qcow2IoOps> Qcow2Dev<T> {
             } else {
                 entry.set_dirty(true);
                 self.mark_need_flush(true);
+                #[cfg(qcow2_rs_verif)]
+                crate::verif::probe("add_cache_slice:build-from-inflight");
                 log::trace!("add_cache_slice: build from inflight");
             }
 
@@ -281,6 +287,8 @@ impl<T: Qcow2IoOps> Qcow2Dev<T> {
             drop(slice);
             Ok((entry, evicted))
         } else {
+            #[cfg(qcow2_rs_verif)]
+            crate::verif::probe("add_cache_slice:already-update");
             log::trace!("add_cache_slice: slice is already update");
             drop(slice);
             Ok((entry, None))
@@ -301,6 +309,8 @@ impl<T: Qcow2IoOps> Qcow2Dev<T> {
             .add_cache_slice(&self.refblock_cache, rt_e, key, slice_off, slice)
             .await?;
         if let Some(to_kill) = to_kill {
+            #[cfg(qcow2_rs_verif)]
+            crate::verif::probe("evict:dirty-rb-slices");
             log::warn!("add_rb_slice: cache eviction, slices {}", to_kill.len());
             self.flush_cache_entries(to_kill).await?;
         }
@@ -352,6 +362,8 @@ impl<T: Qcow2IoOps> Qcow2Dev<T> {
             h.reftable_clusters()
         };
 
+        #[cfg(qcow2_rs_verif)]
+        crate::verif::probe("ensure_refblock:wait-rt-write");
         let mut reftable = self.reftable.write().await;
         log::info!(
             "ensure rt entry: rt_idx {} rt_entries {} host_cluster {:x}",
@@ -360,6 +372,8 @@ impl<T: Qcow2IoOps> Qcow2Dev<T> {
             cls.0
         );
         if !reftable.in_bounds(rt_index) {
+            #[cfg(qcow2_rs_verif)]
+            crate::verif::probe("grow:reftable");
             let mut grown_rt = reftable.clone_and_grow(rt_index, rt_clusters, info.cluster_size());
             if !grown_rt.is_update() {
                 self.grow_reftable(&reftable, &mut grown_rt).await?;
@@ -390,6 +404,8 @@ impl<T: Qcow2IoOps> Qcow2Dev<T> {
 
         let rt_e = reftable.get(rt_index);
 
+        #[cfg(qcow2_rs_verif)]
+        crate::verif::probe("grow:new-refblock");
         log::debug!("allocate new refblock offset {:x}", refblock_offset);
         let mut new_refblock = RefBlock::new(info.refcount_order(), 1 << info.rb_slice_bits, None);
         new_refblock.increment(0).unwrap();
@@ -429,6 +445,8 @@ impl<T: Qcow2IoOps> Qcow2Dev<T> {
         }
 
         let rb_handle = self.get_refblock(cls, rt_e).await?;
+        #[cfg(qcow2_rs_verif)]
+        crate::verif::probe("alloc:wait-rb-write");
         let mut rb = rb_handle.value().write().await;
 
         let range = match rb.get_free_range(rb_slice_index, count) {
@@ -484,6 +502,8 @@ impl<T: Qcow2IoOps> Qcow2Dev<T> {
                         // can't make a big & continuous ranges, skip the small part
                         // in previous loop, and retry from current host_cluster
                         if host_cluster != off.0 {
+                            #[cfg(qcow2_rs_verif)]
+                            crate::verif::probe("alloc:fragment-retry");
                             log::debug!(
                                 "try_allocate_from: fragment found and retry, free ({:x} {}) ({:x} {})",
                                 out_off,
